@@ -106,7 +106,7 @@ const WIRE_ASSUME: &[&str] = &[
     "value codec and converter are trusted for payload equality (decoded Value equality)",
     "model semantics were cross-read against, not executed against, the conformance cases in /repo/conformance-tester/tests",
     "for requests of a connection whose task was dropped, the model mirrors the broker's reply-before-effect order",
-    "broker built with features statistics + verif-hooks, without introspection (stub introspection handlers)",
+    "broker built with features statistics + introspection + verif-hooks (the build without the optional introspection feature, whose three stub handlers only gate on the version, is not exercised)",
 ];
 
 const API_REAL: &[&str] = &[
